@@ -25,6 +25,7 @@ type replayScript struct {
 	Expect   []string        `json:"expect_observes,omitempty"`
 	vio      *Violation
 	sample   *PathSample
+	probe    *PathSample
 	result   *replayResult
 }
 
@@ -65,6 +66,9 @@ func runNativeReplays(w *World, scripts []*replayScript, verbose bool) error {
 	for _, s := range scripts {
 		if s.sample != nil {
 			s.Expect = s.sample.Observes
+		}
+		if s.probe != nil {
+			s.Attempts = 1
 		}
 		byPkg[s.Pkg] = append(byPkg[s.Pkg], s)
 	}
